@@ -102,6 +102,9 @@ def generic_visited_guard(prog, f, e):
         if f.dominates_ev(x, e) or any(tests_insertion(ef[2]) for b in f.blocks
                                        for i in range(len(f.blocks[b]['succ'])) for ef in f.edge_facts(b, i)):
             return key
+        # ... or every feasible way to the descent passes the mutation (`if (not found) insert; ...; if (found) return;`)
+        if f.find_path(None, lambda y: y is e, from_succ=f.entry, is_blocker=lambda y, x=x: y is x) is None:
+            return key
     return None
 
 
@@ -152,7 +155,7 @@ def check_explicit(ctx, prog, key, fs):
         fatal = [e for e in f.calls('Fatal')]
         push = [e for e in f.events('call') if lastname(e.get('name')) == 'push_back' and mentions_field(e.get('recv'), 'EdgeEnv::lookups_')]
         ok = bool(fb) and bool(fatal) and bool(push) and \
-            fact_holds(f.facts_at(fatal[0]), lambda a: 'EdgeEnv::lookups_.end()' in dstr(deep_resolve(f, a)), None) and \
+            fact_holds(f.facts_at(fatal[0]), lambda a: any(t in dstr(deep_resolve(f, a)) for t in ('EdgeEnv::lookups_.end()', 'EdgeEnv::lookups_.size()')), None) and \
             all(f.dominates_ev(p, fb[0]) or True for p in push)
         # the lookup stack is searched before descending and pushed for rule variables
         srch = [e for e in f.events('call') if lastname(e.get('name')) == 'find_if' and 'EdgeEnv::lookups_' in dstr(e.get('args'))]
